@@ -219,9 +219,13 @@ def msgInlField (inner : Eff) (typeName ext : Str) (rules : Rules) (lr : Bool) :
 
 /-- enum field once the `EnumRef` is known -/
 def enumFieldWith (pre walk : Eff) (typeName : Str) (pfx : Str) (names : List Str) (rules : Rules)
-    (lr : Bool) : BF :=
+    (lr : Option (List Str)) : BF :=
   if !mapValuesOk pfx names (enumRuleVals rules) then { eff := pre ++ j5Ext, walk := walk } else
-  { eff := pre ++ j5Ext ++ validateWithImport true ++ listRulesEff lr,
+  -- `fix: b6c593a`: the default filters of the list rules go through `EnumRef.mapValues` too
+  -- (after `(buf.validate.field)` is set and its file imported)
+  if !mapValuesOk pfx names (lr.getD []) then
+    { eff := pre ++ j5Ext ++ validateWithImport true, walk := walk } else
+  { eff := pre ++ j5Ext ++ validateWithImport true ++ listRulesEff lr.isSome,
     res := some { type := .enum, typeName := typeName, ext := b!"enum", hasValidate := true },
     walk := walk }
 
